@@ -112,7 +112,7 @@ pub fn src_for(ctx: &Ctx, d: &Domain) -> BoxedStrategy<SrcSpec> {
     }
     if d.gradients {
         v.push((6, gradient_src(ctx, ext)));
-        v.push((1, degenerate_gradient_src(ctx, ext)));
+        v.push((2, degenerate_gradient_src(ctx, ext)));
     }
     proptest::strategy::Union::new_weighted(v).boxed()
 }
